@@ -57,6 +57,9 @@ KEYS = ('BATCH', 'number of tasks is', 'PACKET_LENGTH', 'initialization time',
 SMALL = 12000
 
 
+DECOY = bytes.maketrans(b'123456789', b'234567891')
+
+
 class StepBudget(Exception):
     '''The logical step budget of one parse was exceeded.'''
 
@@ -298,6 +301,17 @@ def run(spec, rec):
         outcomes_by_off = {}
         for cut in mine:
             case = dict(case0, offset=cut)
+            if rrng.random() < 0.04 and cut > 200:
+                # other content of the same size at the same path, opened
+                # just before: must leave no trace
+                with open(tmp, 'wb') as fil:
+                    fil.write(data[:cut].translate(DECOY))
+                try:
+                    decoy = Parser(tmp)
+                    decoy.parse_from_number(decoy.batch_numbers()[-1])
+                except Exception:  # pylint: disable=broad-except
+                    pass
+                rec.count('decoys_opened_before')
             with open(tmp, 'wb') as fil:
                 fil.write(data[:cut])
             rec.count('prefixes')
@@ -424,6 +438,50 @@ def run(spec, rec):
                               f'{name} edition {bnum} (cut {cut}): first '
                               f'{memo[key][0]}, re-parsed later {kind}',
                               dict(case0, offset=cut))
+        # after all those failures in this thread, another thread parses
+        # the complete listing: it must come back
+        import threading
+        import time
+        box = {}
+
+        def other_thread():
+            try:
+                par2 = Parser(full)
+                par2.parse_from_index(-1)
+                box['out'] = 'parsed'
+            except ParserException:
+                box['out'] = 'ParserException'
+            except Exception as err:  # pylint: disable=broad-except
+                box['out'] = 'raised-' + type(err).__name__
+        steps.start()
+        thr = threading.Thread(target=other_thread, daemon=True)
+        thr.start()
+        # logical evidence of a hang: the thread is alive and no Python
+        # function was entered anywhere in the process for 10 s
+        last, since, t_0 = -1, time.monotonic(), time.monotonic()
+        hung = False
+        # (only builtins in this loop: it must not produce steps itself)
+        while 'out' not in box and time.monotonic() - t_0 < 600:
+            time.sleep(0.25)
+            if steps.count != last:
+                last, since = steps.count, time.monotonic()
+            elif time.monotonic() - since > 10:
+                hung = True
+                break
+        if hung:
+            rec.violation('parse-hangs-in-another-thread-after-failed-'
+                          'parses', f'{name}: a thread parsing the complete '
+                          'listing has made no step for 10 s (the earlier '
+                          'parses of this shard, some of which failed, ran '
+                          'in the main thread)', case0)
+        elif 'out' not in box:
+            rec.count('other_thread_inconclusive')
+        else:
+            rec.count('other_thread_parses')
+            if box.get('out', '').startswith('raised'):
+                rec.violation(f'parse-in-another-thread-{box["out"]}',
+                              f'{name}', case0)
+        steps.stop()
         # a few prefixes again in a fresh process
         drv = os.path.join(work, 'fresh.py')
         with open(drv, 'w') as fil:
